@@ -113,6 +113,7 @@ type Violation struct {
 type World struct {
 	gateDelay    int           // set by the gate hook right before it parks: scheduler steps the preemption lasts
 	gateWaiting  bool          // some goroutine is still preempted at a gate (set by enabledList)
+	gateParkedN  int           // goroutines parked at a gate at the beginning of this step
 	gateTimeStep bool          // only timers can make progress while a goroutine is preempted, and the budget allows it
 	gateTimeUsed time.Duration // simulated time that has passed so far while goroutines were preempted
 	wake         chan struct{} // a call has just parked (ends the scheduler's sleep)
@@ -385,7 +386,11 @@ func (w *World) enabledList() []enabledItem {
 	w.mu.Lock()
 	defer w.mu.Unlock()
 	items := make([]enabledItem, 0, len(w.parked)+1)
+	w.gateParkedN = 0
 	for k, p := range w.parked {
+		if p.kind == "gate" {
+			w.gateParkedN++
+		}
 		if p.stalled {
 			if time.Now().Before(p.stalledUntil) {
 				continue
@@ -680,6 +685,10 @@ func (w *World) isDead() bool {
 	defer w.mu.Unlock()
 	return w.dead
 }
+
+// gatesParked: goroutines of the engine that are preempted right now (as counted by the
+// scheduler at the beginning of this step; read by trigger predicates, which run under w.mu).
+func (w *World) gatesParked() int { return w.gateParkedN }
 
 func (w *World) stallCount() int {
 	w.mu.Lock()
